@@ -5,6 +5,7 @@ import itertools
 
 import numpy as np
 
+from .. import coqfmt as F
 from .. import graphgen as G
 from .. import values as V
 from .common import Outcome, cinfer, cinfer_frame, quiet, time_limit, try_build, tval, Timeout
@@ -36,6 +37,11 @@ def gen(rng, tier):
             r, _ = G.erase(rng, cg, wrong_outputs=False)
             cons = True
         cases.append({"kind": "rand", "recipe": V.enc_recipe(r), "twice": rng.random() < 0.5, "consistent": cons})
+    # nodes that were built from ONE types dictionary object (the constructors keep a dict-form argument as it is): inference
+    # reaching one of them must not re-type the other, nor the caller's dictionary
+    for _ in range(8 if tier == "quick" else 80):
+        cases.append({"kind": "sharedty", "a": [rng.randint(2, 5), rng.randint(2, 5)], "b": [rng.randint(2, 5), rng.randint(2, 5)],
+                      "cls": rng.choice(["Flatten", "Flatten", "Input"])})
     if tier == "thorough":
         mk = {
             "I": lambda: {"k": "Input", "args": {"input_type": np.array([2, 5, 5])}},
@@ -63,13 +69,13 @@ def gen(rng, tier):
 
 def digest(v):
     if isinstance(v, np.ndarray):
-        return ("nd", v.dtype.str, v.shape, hashlib.sha256(np.ascontiguousarray(v).tobytes()).hexdigest() if v.dtype.kind != "O" else repr(v.tolist()))
+        return ("nd", v.dtype.str, v.shape, hashlib.sha256(F.canon_bytes(v)).hexdigest() if v.dtype.kind != "O" else repr(v.tolist()))
     if isinstance(v, dict):
         return ("dict", tuple((k, digest(x)) for k, x in v.items()))
     if isinstance(v, (list, tuple)):
         return (type(v).__name__, tuple(digest(x) for x in v))
     if isinstance(v, np.generic):
-        return ("np", v.dtype.str, v.tobytes())
+        return ("np", v.dtype.str, F.canon_bytes(np.asarray(v)))
     return (type(v).__name__, repr(v))
 
 
@@ -181,7 +187,42 @@ def later_inputs(g):
     return None
 
 
+def run_sharedty(c):
+    import nir
+    a, b = c["a"], c["b"]
+    if a == b:
+        b = [a[0] + 1, a[1]]
+    d = {"input": np.array(a)}
+    mk = {"Flatten": lambda: nir.Flatten(input_type=d, start_dim=0, end_dim=-1),
+          "Input": lambda: nir.Input(input_type=d)}[c["cls"]]
+    fail = None
+    try:
+        with quiet():
+            reached = nir.Flatten(input_type=d, start_dim=0, end_dim=-1)
+            other = mk()
+            g = nir.NIRGraph(nodes={"in": nir.Input(np.array(b)), "reached": reached, "other": other, "out": nir.Output(output_type=None)},
+                             edges=[("in", "reached"), ("reached", "out")])
+            before_other = (tval(other.input_type, "input"), tval(other.output_type, "output"))
+            with time_limit(10):
+                g.infer_types()
+        after_other = (tval(other.input_type, "input"), tval(other.output_type, "output"))
+        if after_other != before_other:
+            fail = (f"a {c['cls']} node without incoming edges (built from the same types dictionary object as a reached "
+                    f"Flatten) was re-typed by infer_types(): {before_other} -> {after_other}")
+        elif [int(x) for x in d["input"]] != a or list(d.keys()) != ["input"]:
+            fail = f"infer_types() changed the caller's own types dictionary: {d}"
+        elif tval(reached.input_type, "input") != b:
+            fail = f"the reached Flatten was not re-typed from its predecessor: {reached.input_type}"
+    except Timeout:
+        fail = "infer_types() did not terminate within 10 s"
+    except BaseException as e:  # noqa: BLE001
+        fail = f"shared-types-dictionary scenario raised {type(e).__name__}: {e}"
+    return Outcome(None, fail, True, repr(c))
+
+
 def run(c):
+    if c["kind"] == "sharedty":
+        return run_sharedty(c)
     r = V.dec_recipe(c["recipe"])
     b = try_build(r)
     times = 2 if c["twice"] else 1
